@@ -8,6 +8,7 @@ import (
 
 	"github.com/pingcap/parser/ast"
 	"github.com/pingcap/parser/model"
+	sql_templates "github.com/sunary/sqlize/sql-templates"
 )
 
 // Index ...
@@ -23,12 +24,17 @@ type Index struct {
 }
 
 func (i Index) hashValue() string {
-	strHash := strings.Join(i.migrationUp(""), ";")
+	// the digest must not depend on the keyword-case option: always use the uppercase templates
+	strHash := strings.Join(i.migrationUpWith(sql_templates.NewSql(sql.GetDialect(), false), ""), ";")
 	hash := md5.Sum([]byte(strHash))
 	return hex.EncodeToString(hash[:])
 }
 
 func (i Index) migrationUp(tbName string) []string {
+	return i.migrationUpWith(sql, tbName)
+}
+
+func (i Index) migrationUpWith(sql *sql_templates.Sql, tbName string) []string {
 	switch i.Action {
 	case MigrateNoAction:
 		return nil
@@ -73,9 +79,9 @@ func (i Index) migrationUp(tbName string) []string {
 	case MigrateModifyAction:
 		strRems := make([]string, 2)
 		i.Action = MigrateRemoveAction
-		strRems[0] = i.migrationUp(tbName)[0]
+		strRems[0] = i.migrationUpWith(sql, tbName)[0]
 		i.Action = MigrateAddAction
-		strRems[1] = i.migrationUp(tbName)[0]
+		strRems[1] = i.migrationUpWith(sql, tbName)[0]
 		return strRems
 
 	case MigrateRenameAction:
